@@ -4,7 +4,7 @@
 //! namespace with a tmpfs on /run (the check starts the harness under `unshare -m`).
 //!   pol <start_ns> <cfg_refid|-1> <n> { t_ns mode d_ns e_ns phc refid tag }*n
 //!     mode 1: tracking reply after d ns; 0: reply with a wrong sequence number; 2: garbage datagram;
-//!     3: no socket.  e: extra time until the grace period is evaluated.  phc -1: file absent, -2: a directory in its place (open succeeds, read fails).
+//!     3: no socket; 4: a reply without tracking data; 5: no reply at all (the query times out, 3 x 1 s of real time).  e: extra time until the grace period is evaluated.  phc -1: file absent, -2: a directory in its place (open succeeds, read fails).
 //! -> per iteration  D:<as_of_ns>:<phc>:<refid>:<tag> | NG | NR | PG | PF , then  ORDER:<ok|query-before-read@i>
 use crate::bound::mk_tracking;
 use crate::util::*;
@@ -144,6 +144,10 @@ pub fn run(toks: &[&str]) -> String {
             };
             if s.mode == 2 {
                 let _ = srv.send_to(&[1, 2, 3], &path);
+                continue;
+            }
+            if s.mode == 5 {
+                // chronyd holds its socket but does not reply (stopped, hung): the client's query times out
                 continue;
             }
             if s.mode == 4 {
